@@ -3,7 +3,9 @@
 //!
 //!   V ::= (kind span|metric) | (str xHEX) | (disp xHEX) | (i64 N) | (u64 N) | (i128 N) | (u128 N)
 //!       | (f64 BITS) | (bool B) | (null) | (seq V…) | (sseq V…)        seq: captured via sval, sseq: via serde
-//!   E ::= none | (point NANOS) | (range NANOS NANOS)
+//!   E ::= none | (point NANOS) | (range NANOS NANOS)          NANOS: nanoseconds since the unix epoch, up to
+//!                                                             `Timestamp::MAX` (9999-12-31T23:59:59.999999999Z,
+//!                                                             about 2.5e20 — more than 64 bits)
 
 use hcommon::Sexp;
 use std::time::Duration;
@@ -149,8 +151,14 @@ impl serde::Serialize for V {
 #[derive(Clone, Copy, Debug, PartialEq)]
 pub enum Ext {
     None,
-    Point(u64),
-    Range(u64, u64),
+    Point(u128),
+    Range(u128, u128),
+}
+
+/// `Timestamp::from_unix` of a nanosecond count; `None` past `Timestamp::MAX`.
+pub fn ts_of_nanos(n: u128) -> Option<emit::Timestamp> {
+    let secs = u64::try_from(n / 1_000_000_000).ok()?;
+    emit::Timestamp::from_unix(Duration::new(secs, (n % 1_000_000_000) as u32))
 }
 
 impl Ext {
@@ -160,10 +168,16 @@ impl Ext {
         }
         let (tag, a) = s.as_tagged()?;
         match (tag, a.len()) {
-            ("point", 1) => Some(Ext::Point(a[0].as_u64()?)),
-            ("range", 2) => Some(Ext::Range(a[0].as_u64()?, a[1].as_u64()?)),
+            ("point", 1) => Some(Ext::Point(a[0].as_u128()?)),
+            ("range", 2) => Some(Ext::Range(a[0].as_u128()?, a[1].as_u128()?)),
             _ => None,
         }
+        // an instant `emit::Timestamp` cannot hold is not a case
+        .filter(|e| match e {
+            Ext::None => true,
+            Ext::Point(t) => ts_of_nanos(*t).is_some(),
+            Ext::Range(a, b) => ts_of_nanos(*a).is_some() && ts_of_nanos(*b).is_some(),
+        })
     }
     pub fn to_sexp(&self) -> Sexp {
         match self {
@@ -173,7 +187,7 @@ impl Ext {
         }
     }
     pub fn extent(&self) -> Option<emit::Extent> {
-        let ts = |n: u64| emit::Timestamp::from_unix(Duration::from_nanos(n)).unwrap();
+        let ts = |n: u128| ts_of_nanos(n).expect("instant within emit::Timestamp's range");
         match self {
             Ext::None => None,
             Ext::Point(t) => Some(emit::Extent::point(ts(*t))),
